@@ -179,6 +179,43 @@ pub fn long_pair(rng: &mut Rng) -> (String, String, &'static str) {
 }
 
 // ---------------------------------------------------------------------------------------------
+// `room_member_count` strings
+
+const COUNT_PREFIX: &[&str] =
+    &["", "", "==", "<", ">", ">=", "<=", "=", "=<", "=>", "<<", "!=", " ", "== ", "<==", ">>="];
+const COUNT_SIGN: &[&str] = &["", "", "", "", "", "+", "-", " ", "++", "+-"];
+const COUNT_DIGITS: &[&str] = &[
+    "", "0", "1", "2", "3", "4", "10", "007", "00", "9007199254740991", "9007199254740992",
+    "18446744073709551615", "18446744073709551616", "99999999999999999999999", "3a", "٣", "３", "3 ",
+    "1_0", "0x3", "1e3", "3.0", "2+", "2-1", "²",
+];
+const COUNT_MEMBERS: &[u64] = &[0, 1, 2, 3, 4, 9, 10, 11, 9007199254740990, 9007199254740991];
+
+pub fn count_lines(out: &mut Vec<Req>, is: &str, n: u64, cls: &str) {
+    for op in ["c12.count", "c12.spec.count"] {
+        out.push(Req::new(format!("{op} {} i{n}", stok(is)), format!("{cls}.{}", &op[4..])));
+    }
+}
+
+fn gen_count(rng: &mut Rng, out: &mut Vec<Req>) {
+    // two thirds well-formed (one of the six spellings, plain digits), one third from the full pools
+    let is = if rng.chance(2, 3) {
+        let d = *rng.pick(&["0", "1", "2", "3", "4", "10", "007", "9007199254740991"]);
+        format!("{}{d}", rng.pick(&["", "==", "<", ">", ">=", "<="]))
+    } else {
+        format!("{}{}{}", rng.pick(COUNT_PREFIX), rng.pick(COUNT_SIGN), rng.pick(COUNT_DIGITS))
+    };
+    let n = if rng.chance(1, 2) {
+        // next to the number in the string, where the five comparisons differ
+        let d: u64 = is.trim_start_matches(['<', '>', '=', '+']).parse().unwrap_or(3);
+        (d.saturating_add(rng.below(3) as u64).saturating_sub(1)).min(9007199254740991)
+    } else {
+        *rng.pick(COUNT_MEMBERS)
+    };
+    count_lines(out, &is, n, "count");
+}
+
+// ---------------------------------------------------------------------------------------------
 // rulesets × contexts × events
 
 const USERS: &[&str] = &[
@@ -553,6 +590,21 @@ pub fn gen(rng: &mut Rng, n: usize, tier: &str) -> Vec<Req> {
     for _ in 0..k {
         let (p, s, cls) = long_pair(rng);
         pair_lines(&mut out, &p, &s, cls);
+    }
+    // (d) `room_member_count` strings: every prefix × sign × digits once in the thorough tier
+    if tier == "thorough" {
+        for p in COUNT_PREFIX {
+            for sg in COUNT_SIGN {
+                for d in COUNT_DIGITS {
+                    for n in [2u64, 3, 4] {
+                        count_lines(&mut out, &format!("{p}{sg}{d}"), n, "count");
+                    }
+                }
+            }
+        }
+    }
+    for _ in 0..(n / 10).max(50) {
+        gen_count(rng, &mut out);
     }
     // (c) rulesets × contexts × events
     for _ in 0..(n - 2 * k) {
